@@ -2,7 +2,7 @@
     data tree plus a table of Find calls on the real library: (start location, path bytes, what the
     path was built to mean, what was observed). *)
 From Coq Require Import ZArith List Bool Strings.Byte.
-From YV Require Import Base.Verdict Val.Model Tree.Schema Tree.Editor Tree.Pct Tree.KeyText Tree.Find.
+From YV Require Import Base.Verdict Val.Model Tree.Schema Tree.Editor Tree.Pct Tree.KeyText Tree.Find Tree.FindNode.
 Import ListNotations.
 
 (** positional address used by the SPEC side: row [j] of the list at flat kid [i] - no key
@@ -29,28 +29,15 @@ Record fcase := mkF {
   f_pure : bool    (* no write/create/delete callback seen and the data tree is unchanged *)
 }.
 
+(** [CFindsN pol]: the data tree is served by nodes that answer a lookup by key with the reported
+    key [ans_of pol] (Tree/FindNode.v: the request's key / nil / the entry's own key values, all
+    lists alike or depending on the list's position); [CFinds] = the plain reference store, which
+    echoes the request's key *)
 Inductive case :=
-| CFinds (pfx modname : ident) (kids : list snode) (data : content) (fs : list fcase).
+| CFinds (pfx modname : ident) (kids : list snode) (data : content) (fs : list fcase)
+| CFindsN (pol : kpolicy) (pfx modname : ident) (kids : list snode) (data : content) (fs : list fcase).
 
-(** ** comparisons *)
-Fixpoint lvals_eqb (a b : list lval) : bool :=
-  match a, b with
-  | [], [] => true
-  | x :: a', y :: b' => lval_eqb x y && lvals_eqb a' b'
-  | _, _ => false
-  end.
-Definition step_eqb (a b : step) : bool :=
-  match a, b with
-  | SName i, SName j => Nat.eqb i j
-  | SKey i k, SKey j k' => Nat.eqb i j && lvals_eqb k k'
-  | _, _ => false
-  end.
-Fixpoint loc_eqb (a b : loc) : bool :=
-  match a, b with
-  | [], [] => true
-  | x :: a', y :: b' => step_eqb x y && loc_eqb a' b'
-  | _, _ => false
-  end.
+(** ** comparisons ([lvals_eqb], [step_eqb], [loc_eqb]: Tree/FindNode.v) *)
 Definition oloc_eqb (a b : option loc) : bool :=
   match a, b with
   | None, None => true
@@ -82,15 +69,15 @@ Definition ocontent_eqb (m o : ocontent) : bool :=
   end.
 
 (** ** correspondence: the observation equals what the model of the code computes *)
-Definition model_reloc (pfx : ident) (kids : list snode) (data : content) (l : loc) : option loc :=
-  match find pfx kids data [] (path_string_nomod kids l) with
+Definition model_reloc (ans : nodeans) (pfx : ident) (kids : list snode) (data : content) (l : loc) : option loc :=
+  match find_n ans pfx kids data [] (path_string_nomod kids l) with
   | FOk r => r
   | _ => None
   end.
 
-Definition corr_one (pfx modname : ident) (kids : list snode) (data : content) (f : fcase) : bool :=
+Definition corr_one (ans : nodeans) (pfx modname : ident) (kids : list snode) (data : content) (f : fcase) : bool :=
   f_pure f &&
-  match find pfx kids data (f_start f) (f_path f), f_obs f with
+  match find_n ans pfx kids data (f_start f) (f_path f), f_obs f with
   | FOk (Some l), OFound l' pstr pnm c reloc =>
       loc_eqb l l'
       && bytes_eqb pstr (path_string modname kids l)
@@ -99,7 +86,7 @@ Definition corr_one (pfx modname : ident) (kids : list snode) (data : content) (
          | Some cur => ocontent_eqb (content_of cur) c
          | None => false
          end
-      && oloc_eqb (model_reloc pfx kids data l) reloc
+      && oloc_eqb (model_reloc ans pfx kids data l) reloc
   | FOk None, ONone => true
   | FErr FNotFound, OErr FNotFound | FErr FOther, OErr FOther => true
   | FPanic, OPanic => true
@@ -169,6 +156,9 @@ Definition spec_one (kids : list snode) (data : content) (f : fcase) : bool :=
 Definition classify (c : case) : verdict :=
   match c with
   | CFinds pfx modname kids data fs =>
-      classify_gen (forallb (corr_one pfx modname kids data) fs)
+      classify_gen (forallb (corr_one (ans_of (PAll KEcho)) pfx modname kids data) fs)
+                   (forallb (spec_one kids data) fs) None
+  | CFindsN pol pfx modname kids data fs =>
+      classify_gen (forallb (corr_one (ans_of pol) pfx modname kids data) fs)
                    (forallb (spec_one kids data) fs) None
   end.
